@@ -110,5 +110,46 @@ claim("C14", "partial evaluation on predicate results + predicate truth tables +
       "attachment, content-type constants); the shim touches nothing (not even the body) unless Content-Type contains html, the new "
       "body is prefix+original, and the script is inserted by Replace(…, 1) or by index and slice on the same string.")
 
-for _pid in ["C15", "C16", "C17", "C18", "C19", "C20"]:
-    pending(_pid, "check under construction in this round (designed in DESIGN.md section 3); not claimed until its rules are built and validated")
+claim("C15", "sibling agreement (encoder/decoder) by partial evaluation + buffer-discipline provenance + pairing",
+      "Byte-stream integrity for all sizes is not decided. Decides the codec/structure it rests on: Write sends one TextMessage "
+      "carrying hex of its own argument and reports len(argument); Read accepts exactly that type, decodes the payload it just read, "
+      "refills only when its buffer is empty and keeps the remainder from the returned count; no websocket read limit exists while "
+      "Write is unsegmented; each bridging function copies a→b and b→a over the same pair with matching WaitGroup counts; non-bridge "
+      "requests reach the pass-through handler with the original (w, r) and are never upgraded; both ends use one StreamingPath constant.")
+
+claim("C16", "pairing: copy-loop completion must reach a close of the pair; acquisition/release pairing",
+      "Timing is not decided. Decides the structural obstacle the property names: in each bridging function, when either "
+      "direction's io.Copy returns that goroutine closes the connections of the pair (directly or via a closure that does), "
+      "independently of its sibling — an expired deadline or a conditional close is not accepted — and every acquired connection "
+      "(Upgrade, Dial, Accept, DialWebsocket) has a deferred Close.")
+
+claim("C17", "dominance + provenance (validated value) + sibling agreement of Store implementations + partial evaluation",
+      "Identity values come from App Engine. Decides for all callers and orders: in each agent endpoint checkBackendID dominates "
+      "every store/helper call, only 401 is reachable from its failure branch, every backendID argument is its result, the check "
+      "returns the ID it checked for the OAuth e-mail only when allowed; the store compares with == and denies missing records; "
+      "admin CRUD is unreachable for non-admins (403), the cron arm is the only exception and api.yaml restricts it; end users are "
+      "looked up by their own e-mail and only EndUser-filtered backends are considered; the caching store is stateless, delegates "
+      "with its own parameters (purely for access/routing decisions) and all keys are injective (%q) and role-consistent.")
+
+claim("C18", "dominance (liveness gate) + truth tables by partial evaluation + purity/determinism of the selection function",
+      "Full equivalence with a longest-prefix specification is not decided. Decides: every backend ID returned by the lookups "
+      "passed hasBackend(<same ID>, 5 min); hasBackend is 'seen and Since < timeout' on boundary values; the shared lookup runs only "
+      "when the user has no match; failure is 404 before any store write; the selection function is pure and deterministic, updates "
+      "its best candidate only under HasPrefix(path, p) and only when there is none yet or len(p) > len(best), records ID and prefix "
+      "of the same backend, and errors exactly when there is no match; no cache or memo sits in front of the routing decision.")
+
+claim("C19", "provenance of IDs and bytes + sibling key agreement + path-sensitive send counting vs. channel capacity + pairing",
+      "Blob arithmetic at the 1 MB boundaries is not decided. Decides: the client path stores and awaits under the same (backend, "
+      "request ID) pair and parses the bytes it awaited; agent endpoints use the validated backend and the header's request ID; a "
+      "response is stored only when the request exists under that pair; datastore keys agree between write and read, blob parts are "
+      "read with one ordered GetMulti in the recorded order without goroutines; Completed=true is set on the read request before it "
+      "is written back and the pending query filters it; every error channel's capacity covers its possible senders, WaitGroup "
+      "counts match, both wait loops are bounded by WithTimeout(constant) and a time-out maps to 504.")
+
+claim("C20", "dominance + who-may-call + partial evaluation of health/threshold comparisons + confinement of the polling context",
+      "Exit times are not decided. Decides the ordering and counting structure: waitForHealthy dominates the adapter start and "
+      "cannot return while enabled checks fail; only pollForNewRequests ← runAdapter ← main polls; healthCheck is nil only for 200; "
+      "the failure counter is +1 on failure, 0 on success, starts at 0, and the terminating call is reachable exactly for counter ≥ "
+      "threshold (clamped to ≥ 1); exactly SIGINT/SIGTERM are registered; after the signal main cancels the polling context, sleeps "
+      "the grace period, terminates — or returns at once without one; every list call is preceded by the non-blocking cancellation "
+      "test; the polling context never leaves pollForNewRequests and the shared HTTP client is not modified by the poller.")
